@@ -12,11 +12,13 @@ R10.7 HighT and LowT method families are mirror images at term level
 from __future__ import annotations
 
 import ast
+import copy
 
 import sympy as sp
 
 from ..core import AnchorMissing, Check, Undecided, calls_in, dotted, kwarg, src, own_nodes, slice_src
 from ..flow import CFG
+from ..nf import Ctx, eqx
 from ..terms import Extractor, ITE, is_zero
 
 LEVEL = "proof"
@@ -29,13 +31,73 @@ def fn(name):
     return sp.Function(name)
 
 
-def _classify(path, X, T):
+def _elements(v: ast.AST) -> list:
+    """elements of a list display, or of a comprehension over a literal sequence / range written out"""
+    if isinstance(v, (ast.List, ast.Tuple)):
+        return list(v.elts)
+    if isinstance(v, ast.ListComp) and len(v.generators) == 1 and not v.generators[0].ifs and isinstance(v.generators[0].target, ast.Name):
+        it = v.generators[0].iter
+        vals = None
+        if isinstance(it, (ast.List, ast.Tuple)) and all(isinstance(e, ast.Constant) for e in it.elts):
+            vals = [e.value for e in it.elts]
+        elif isinstance(it, ast.Call) and dotted(it.func) == "range" and not it.keywords and all(isinstance(a, ast.Constant) and isinstance(a.value, int) for a in it.args):
+            vals = list(range(*[a.value for a in it.args]))
+        if vals is not None and len(vals) <= 8:
+            tgt = v.generators[0].target.id
+            out = []
+            for val in vals:
+                class Sb(ast.NodeTransformer):
+                    def visit_Name(self, x):
+                        return ast.copy_location(ast.Constant(value=val), x) if x.id == tgt else x
+                out.append(Sb().visit(copy.deepcopy(v.elt)))
+            return out
+    return [v]
+
+
+def _positional_free_energy_calls(S, fi):
+    """copy of a function in which the arguments of self.freeEnergyHigh/Low.derivative(...) and self.freeEnergyHigh/Low(...) are passed by
+    position as far as FreeEnergy's signatures allow: derivative(x=T, order=2) == derivative(T, order=2) == derivative(T, 2).  (the term extractor
+    appends keyword arguments in alphabetical order when several package callables share a name with different signatures)"""
+    from ..core import FuncInfo
+    sigs = {}
+    for meth in ("derivative", "__call__"):
+        if S.has_func(f"freeEnergy:FreeEnergy.{meth}"):
+            sigs[meth] = [p_ for p_ in S.func(f"freeEnergy:FreeEnergy.{meth}").params() if p_ != "self"]
+        elif S.has_func(f"interpolatableFunction:InterpolatableFunction.{meth}"):
+            sigs[meth] = [p_ for p_ in S.func(f"interpolatableFunction:InterpolatableFunction.{meth}").params() if p_ != "self"]
+
+    class T(ast.NodeTransformer):
+        def visit_Call(self, c):
+            self.generic_visit(c)
+            d = dotted(c.func) or ""
+            meth = "derivative" if d in tuple(f"self.{v}.derivative" for v in FE.values()) else "__call__" if d in tuple(f"self.{v}" for v in FE.values()) else None
+            prm = sigs.get(meth) if meth else None
+            if prm and c.keywords and not any(isinstance(a, ast.Starred) for a in c.args):
+                kw = {k.arg: k for k in c.keywords if k.arg}
+                while len(c.args) < len(prm) and prm[len(c.args)] in kw:
+                    k = kw.pop(prm[len(c.args)])
+                    c.keywords.remove(k)
+                    c.args.append(k.value)
+            return c
+    node = T().visit(copy.deepcopy(fi.node))
+    ast.fix_missing_locations(node)
+    return FuncInfo(fi.module, fi.qual, node, fi.cls, fi.parent)
+
+
+def _classify(path, X, T, ex=None):
     """lower / upper / table / foreign according to the positive guards of the path"""
     cls = "table"
     foreign = []
     path.nonstrict = []
     for g in path.guards:
-        t = g.term
+        t, pol, node = g.term, g.polarity, g.node
+        # `if not T < TMin:` is the guard `T < TMin` with the branches exchanged
+        while not isinstance(t, sp.Basic) and ex is not None and isinstance(node, ast.UnaryOp) and isinstance(node.op, ast.Not):
+            node, pol = node.operand, not pol
+            try:
+                t = ex.cond(node, path.env, 0)
+            except Undecided:
+                t = None
         if not isinstance(t, sp.Basic):
             foreign.append(g.text())
             continue
@@ -53,7 +115,7 @@ def _classify(path, X, T):
         else:
             if name in ("LE", "GE"):
                 path.nonstrict.append(g.text())
-            if g.polarity:
+            if pol:
                 cls = side
     return cls, foreign
 
@@ -70,12 +132,12 @@ def rules(chk: Check) -> None:
     for X in PHASES:
         other = "LowT" if X == "HighT" else "HighT"
         for f in ("p", "dp", "ddp", "csq"):
-            fi = S.func(f"{TH}.{f}{X}")
+            fi = _positional_free_energy_calls(S, S.func(f"{TH}.{f}{X}"))
             chk.touch(fi.name)
             paths = exu.returns(fi)
             got = {}
             for p in paths:
-                c, foreign = _classify(p, X, T)
+                c, foreign = _classify(p, X, T, exu)
                 chk.ob("R10.1", fi.where(), f"{f}{X}: branch guard `{p.gtext()}` compares the temperature with the bounds of the {X} phase only",
                        not foreign, "; ".join(foreign), key=f"guard|{f}{X}|{c}")
                 chk.ob("R10.1", fi.where(), f"{f}{X}: branch guard `{p.gtext()}` is strict, so exactly at the range end the tabulated branch is taken "
@@ -144,7 +206,7 @@ def rules(chk: Check) -> None:
             paths = inl.returns(fi)
             val = None
             for p in paths:
-                c, _ = _classify(p, X, Tt)
+                c, _ = _classify(p, X, Tt, inl)
                 if c == side:
                     val = p.value
             want = DP(arg) / (arg * DDP(arg))
@@ -221,74 +283,98 @@ def rules(chk: Check) -> None:
     # ---------------- R10.5 (spline derivatives) -----------------------------
     f_int = S.func("interpolatableFunction:InterpolatableFunction._interpolate")
     chk.touch(f_int.name)
+    ci = Ctx(S, f_int)
     ok_list = False
     spline_same = False
     for n_ in own_nodes(f_int.node):
         if isinstance(n_, ast.Assign) and any(dotted(t) == "self._interpolatedDerivatives" for t in n_.targets):
-            if isinstance(n_.value, ast.List):
-                orders = []
-                for e in n_.value.elts:
-                    if (isinstance(e, ast.Call) and dotted(e.func) == "self._interpolatedFunction.derivative"
-                            and e.args and isinstance(e.args[0], ast.Constant)):
-                        orders.append(e.args[0].value)
-                    else:
-                        orders.append(None)
-                ok_list = orders == [1, 2]
+            orders = []
+            for e in _elements(ci.resolve(n_.value)):
+                e = ci.resolve(e)
+                nu = kwarg(e, "nu", 0) if isinstance(e, ast.Call) else None
+                if isinstance(e, ast.Call) and eqx(e.func, "self._interpolatedFunction.derivative", ci) and isinstance(nu, ast.Constant):
+                    orders.append(nu.value)
+                else:
+                    orders.append(None)
+            ok_list = orders == [1, 2]
         if isinstance(n_, ast.Assign) and any(dotted(t) == "self._interpolatedFunction" for t in n_.targets):
-            spline_same = isinstance(n_.value, ast.Call) and (dotted(n_.value.func) or "").endswith("CubicSpline")
+            v = ci.resolve(n_.value)
+            spline_same = isinstance(v, ast.Call) and (dotted(v.func) or "").endswith("CubicSpline")
     chk.ob("R10.5", f_int.where(), "_interpolatedDerivatives == [spline.derivative(1), spline.derivative(2)] of the value spline",
            ok_list and spline_same, key="spline|derivlist")
     f_der = S.func("interpolatableFunction:InterpolatableFunction.derivative")
     chk.touch(f_der.name)
+    cd = Ctx(S, f_der)
+    dprm = [p_ for p_ in f_der.params() if p_ != "self"]
     idx_ok = False
     for n_ in own_nodes(f_der.node):
-        if isinstance(n_, ast.Subscript) and dotted(n_.value) == "self._interpolatedDerivatives":
-            idx_ok = " ".join(src(n_.slice).split()) in ("order - 1", "order-1")
+        if isinstance(n_, ast.Subscript) and eqx(n_.value, "self._interpolatedDerivatives", cd) and len(dprm) >= 2:
+            idx_ok = eqx(n_.slice, f"{dprm[1]} - 1", cd)
     chk.ob("R10.5", f_der.where(), "derivative() selects _interpolatedDerivatives[order - 1]", idx_ok, key="spline|index")
     f_fed = S.func("freeEnergy:FreeEnergy.derivative")
     chk.touch(f_fed.name)
+    cf = Ctx(S, f_fed)
+    fprm = [p_ for p_ in f_fed.params() if p_ != "self"]
     sup = [c for c in own_nodes(f_fed.node) if isinstance(c, ast.Call) and isinstance(c.func, ast.Attribute)
            and c.func.attr == "derivative" and isinstance(c.func.value, ast.Call)
            and dotted(c.func.value.func) == "super"]
-    okp = bool(sup) and len(sup[0].args) >= 2 and isinstance(sup[0].args[0], ast.Name) and sup[0].args[0].id == "x" \
-        and isinstance(sup[0].args[1], ast.Name) and sup[0].args[1].id == "order"
-    if sup and not okp:
-        o = kwarg(sup[0], "order", 1)
-        x = kwarg(sup[0], "x", 0)
-        okp = isinstance(o, ast.Name) and o.id == "order" and isinstance(x, ast.Name) and x.id == "x"
+    okp = False
+    if sup and len(dprm) >= 2 and len(fprm) >= 2:
+        # (points, order) of the parent signature receive the first two parameters of the override, by position or keyword
+        x = kwarg(sup[0], dprm[0], 0)
+        o = kwarg(sup[0], dprm[1], 1)
+        okp = x is not None and o is not None and eqx(x, fprm[0], cf) and eqx(o, fprm[1], cf) \
+            and not any(isinstance(st, (ast.Assign, ast.AugAssign)) and any(isinstance(y, ast.Name) and isinstance(y.ctx, ast.Store) and y.id in fprm[:2] for y in ast.walk(st))
+                        for st in own_nodes(f_fed.node))
     chk.ob("R10.5", f_fed.where(), "FreeEnergy.derivative forwards x and order unchanged to the spline machinery", okp,
            key="spline|forward")
     # FreeEnergyValueType.fromArray: veffValue is the last column, fields the others
     f_fa = S.func("freeEnergy:FreeEnergyValueType.fromArray")
     chk.touch(f_fa.name)
-    last, rest = set(), set()
+    ca = Ctx(S, f_fa)
+    aprm = f_fa.params()
+    A = aprm[0] if aprm else "arr"
+    assigned: dict = {}
     for n_ in own_nodes(f_fa.node):
-        if isinstance(n_, ast.Assign) and isinstance(n_.value, ast.Subscript) and len(n_.targets) == 1 \
-                and isinstance(n_.targets[0], ast.Name):
-            sl = slice_src(n_.value.slice)
-            if sl in ("-1", ":, -1"):
-                last.add(n_.targets[0].id)
-            elif sl in (":-1", ":, :-1"):
-                rest.add(n_.targets[0].id)
+        if isinstance(n_, ast.Assign) and len(n_.targets) == 1 and isinstance(n_.targets[0], ast.Name):
+            assigned.setdefault(n_.targets[0].id, []).append(n_.value)
+
+    def col_kind(e, depth=0) -> set:
+        """which part of the row array an expression holds: {'last'}, {'rest'}, or something else"""
+        if depth > 4:
+            return {"?"}
+        if any(eqx(e, f"{A}[{sl}]") for sl in ("-1", ":, -1", "..., -1")):
+            return {"last"}
+        if any(eqx(e, f"{A}[{sl}]") for sl in (":-1", ":, :-1", "..., :-1")):
+            return {"rest"}
+        if isinstance(e, ast.Name) and e.id in assigned:
+            out = set()
+            for v in assigned[e.id]:
+                if isinstance(v, ast.Subscript) and isinstance(v.value, ast.Name) and v.value.id == e.id and eqx(v.slice, "0"):
+                    continue        # the single row of a one-row table
+                out |= col_kind(v, depth + 1)
+            return out
+        if isinstance(e, ast.Call) and e.args and not e.keywords and len(e.args) == 1 and (dotted(e.func) or "").split(".")[-1] in ("castFromNumpy", "asarray", "Fields"):
+            return col_kind(e.args[0], depth + 1)
+        return {"?"}
     ctor = [c for c in calls_in(f_fa.node, "FreeEnergyValueType")]
     ok_fa = False
     if ctor:
         vv = kwarg(ctor[0], "veffValue", 0)
         ff = kwarg(ctor[0], "fieldsAtMinimum", 1)
-        ok_fa = isinstance(vv, ast.Name) and vv.id in last and ff is not None \
-            and any(isinstance(x, ast.Name) and x.id in rest for x in ast.walk(ff))
+        ok_fa = vv is not None and ff is not None and col_kind(vv) == {"last"} and col_kind(ff) == {"rest"}
     f_fi = S.func("freeEnergy:FreeEnergy._functionImplementation")
+    cfi = Ctx(S, f_fi)
     ok_fi = False
+    firsts = [n_.targets[0].elts[0] for n_ in own_nodes(f_fi.node) if isinstance(n_, ast.Assign) and isinstance(n_.targets[0], ast.Tuple) and n_.targets[0].elts
+              and isinstance(n_.value, ast.Call) and (dotted(n_.value.func) or "").endswith("findLocalMinimum")]
     for c in calls_in(f_fi.node, "concatenate"):
-        a0 = c.args[0] if c.args else None
+        a0 = cfi.resolve(c.args[0]) if c.args else None
         ax = kwarg(c, "axis", 1)
-        if isinstance(a0, ast.Tuple) and len(a0.elts) == 2 and isinstance(ax, ast.Constant) and ax.value == 1:
+        ax = cfi.resolve(ax) if ax is not None else None
+        if isinstance(a0, (ast.Tuple, ast.List)) and len(a0.elts) == 2 and ax is not None and (eqx(ax, "1") or eqx(ax, "-1")):
             # (locations, potential column): the first element is the value returned first by findLocalMinimum
-            for n_ in own_nodes(f_fi.node):
-                if isinstance(n_, ast.Assign) and isinstance(n_.targets[0], ast.Tuple) and \
-                        (call := n_.value) and isinstance(call, ast.Call) and (dotted(call.func) or "").endswith("findLocalMinimum"):
-                    first = n_.targets[0].elts[0]
-                    ok_fi = isinstance(first, ast.Name) and isinstance(a0.elts[0], ast.Name) and a0.elts[0].id == first.id
+            ok_fi = len(firsts) == 1 and isinstance(firsts[0], ast.Name) and eqx(a0.elts[0], firsts[0].id)
     chk.ob("R10.5", f_fa.where(), "free-energy rows are [fields..., Veff] in writer (_functionImplementation) and reader (fromArray)",
            ok_fa and ok_fi, key="row-layout")
 
